@@ -1,18 +1,32 @@
 """C04 — causality and sign (DESIGN 4.C04)."""
 from vlib.core import Check
 from pyvc.driver import verify_contracts, ENGINE_ASSUMPTIONS
-from pyvc import arrays
-from contracts import common, single_layer
+from pyvc import arrays, extio
+from contracts import common, single_layer, assembly
 
 
 def run(tier, seed):
     chk = Check("C04", tier, seed, "proof", "./check C04 --tier " + tier)
-    cs = [c for c in single_layer.contracts if "C04" in c.props]
+    chk.explanation = ("Proved (unbounded): every causality guard returns the literal 0 exactly when the property says so (bilform, "
+                       "evaluate, evaluate_exact, potential, kernel, g, time-integrated and doubly time-integrated kernels, the closed "
+                       "forms fint_k / spacetime_integrated_kernel_k / spacetime_evaluated_1, the column skip of the pool worker); the "
+                       "doubly time-integrated kernel equals the four-term K2 of the property; the assembled matrix is Volterra with "
+                       "rows = test and columns = trial. Bounded: sign beyond rounding / strict positivity (floating point).")
+    chk.assume(*ENGINE_ASSUMPTIONS)
     eng = common.new_engine(single_layer.contracts, "C04")
     arrays.install(eng)
     single_layer.install_spec(eng)
-    chk.assume(*ENGINE_ASSUMPTIONS)
-    verify_contracts(eng, cs, chk)
+    verify_contracts(eng, [c for c in single_layer.contracts if "C04" in c.props], chk)
+    eng2 = common.new_engine(assembly.contracts, "C04")
+    arrays.install(eng2)
+    extio.install(eng2)
+    assembly.install_spec(eng2)
+    verify_contracts(eng2, [c for c in assembly.contracts if "C04" in c.props and c.setup], chk)
     from vlib import smt
     smt.close_pool()
+    try:
+        from bounded import relational
+        relational.run(chk, "C04", tier, seed)
+    except ImportError:
+        chk.notes.append("bounded sign part (relational harness) not built yet")
     return chk.finish()
